@@ -334,7 +334,7 @@ func fromSnapshot(s ucfg.VerifNode) *mval {
 			n.arr = append(n.arr, fromSnapshot(e))
 		}
 		return &mval{sub: n}
-	case "nil":
+	case "nil", "<nil interface>":
 		return nil
 	case "string":
 		return &mval{leaf: true, s: s.Prim}
